@@ -886,7 +886,14 @@ impl<'a> World<'a> {
             if !self.maps[m].created {
                 continue;
             }
-            self.decode_and_compare(m, "close")?;
+            match self.decode_and_compare(m, "close") {
+                Err(Stop::Inconclusive(s)) if s.starts_with("out-of-scope:") => {
+                    self.stats.probe("decoder-finding-outside-scope");
+                }
+                other => {
+                    other?;
+                }
+            }
         }
         Ok(())
     }
